@@ -266,6 +266,8 @@ func (g *opGen) selSet(on string, depth int, sc scope, fragLimit int) []*Sel {
 			if !(leaf && old == sg && g.o.RepeatLeaf) {
 				return
 			}
+		} else if normClash(sc, key) {
+			return // another key that differs only by case/underscores: the Go field names would collide
 		}
 		if !leaf {
 			s.Sub = g.selSet(f.Type.Base(), depth+1, scope{}, fragLimit)
@@ -323,6 +325,11 @@ func (g *opGen) selSet(on string, depth int, sc scope, fragLimit int) []*Sel {
 				continue
 			}
 			ok := true
+			for k := range f.keys {
+				if _, dup := sc[k]; !dup && normClash(sc, k) {
+					ok = false
+				}
+			}
 			for k, sg := range f.keys {
 				if old, dup := sc[k]; dup && old != sg {
 					ok = false
@@ -657,4 +664,58 @@ func FragDagDoc(r *core.Rng, s *Schema) *Doc {
 	}
 	d.Frags = kept
 	return d
+}
+
+func normKey(k string) string { return strings.ToLower(strings.ReplaceAll(k, "_", "")) }
+
+func normClash(sc scope, key string) bool {
+	n := normKey(key)
+	for k := range sc {
+		if k != key && normKey(k) == n {
+			return true
+		}
+	}
+	return false
+}
+
+// NestedTwinOp: two selections of one root field given the SAME typename whose selection sets
+// agree at the top level and differ one or two levels down (genqlient must reject this).
+func NestedTwinOp(r *core.Rng, s *Schema, typename string) *Def {
+	noReq := func(f *FieldDef) bool {
+		for _, a := range f.Args {
+			if a.Type.NonNull && a.Default == "" {
+				return false
+			}
+		}
+		return true
+	}
+	for _, f := range s.FieldsOf("Query") {
+		td := s.Get(f.Type.Base())
+		if td == nil || td.Kind != "OBJECT" || !noReq(f) {
+			continue
+		}
+		for _, g := range td.Fields {
+			gd := s.Get(g.Type.Base())
+			if gd == nil || gd.Kind != "OBJECT" || !noReq(g) {
+				continue
+			}
+			var leaf *FieldDef
+			for _, l := range gd.Fields {
+				if s.IsLeaf(l.Type.Base()) && noReq(l) {
+					leaf = l
+				}
+			}
+			if leaf == nil {
+				continue
+			}
+			extra := "zz: " + leaf.Name
+			if r.Chance(0.5) {
+				extra = "__typename"
+			}
+			text := fmt.Sprintf("query ZTwin {\n  # @genqlient(typename: %q)\n  t1: %s {\n    %s {\n      %s\n    }\n  }\n  # @genqlient(typename: %q)\n  t2: %s {\n    %s {\n      %s\n      %s\n    }\n  }\n}\n",
+				typename, f.Name, g.Name, leaf.Name, typename, f.Name, g.Name, leaf.Name, extra)
+			return &Def{Kind: "query", Name: "ZTwin", Text: text}
+		}
+	}
+	return nil
 }
